@@ -42,8 +42,8 @@ type c08Result struct {
 	Case        int      `json:"case"`
 	Name        string   `json:"name"`
 	Injected    int      `json:"injected"`
-	EstBefore   bool     `json:"estBefore"`   // target had completed its handshake before the injection
-	Emitted     int      `json:"emitted"`     // datagrams the target emitted while the hostile input was processed
+	EstBefore   bool     `json:"estBefore"` // target had completed its handshake before the injection
+	Emitted     int      `json:"emitted"`   // datagrams the target emitted while the hostile input was processed
 	EmittedB    int      `json:"emittedBytes"`
 	QueueMax    int      `json:"queueMax"`
 	Quiet       bool     `json:"quiet"`       // the endpoints became quiescent after the injection
@@ -254,6 +254,23 @@ func c08Make(cs *c08Case, r *labRun, rng *rand.Rand, k int) []byte { //nolint:cy
 		typ := []byte{1, 2, 4, 8, 11, 13, 14, 15, 16, 20, 24, 99}[k%12]
 
 		return c08Plain(22, 0, uint64(2000+k), c08HS(typ, 0, nextSeq&0xffff, 0, 0, nil))
+	case "plain-benign": // cleartext records that tell the endpoint nothing (warning alerts other than close_notify, alerts and
+		// ChangeCipherSpec / ACK bodies that do not decode), with small, window-sized and huge record sequence numbers: an
+		// unauthenticated record must neither abort the association nor move the anti-replay window of epoch 0
+		seqs := []uint64{uint64(k), uint64(60 + k), uint64(3000 + k), 1<<40 + uint64(k), 1<<48 - 1 - uint64(k)}
+		seq := seqs[rng.Intn(len(seqs))]
+		switch k % 3 {
+		case 0:
+			bodies := [][]byte{{1, 90}, {1, 100}, {2}, {}, {1, 90, 0}, {1}, {1, 41}}
+
+			return c08Plain(21, 0, seq, bodies[rng.Intn(len(bodies))])
+		case 1:
+			bodies := [][]byte{{2}, {}, {1, 1}, {0}}
+
+			return c08Plain(20, 0, seq, bodies[rng.Intn(len(bodies))])
+		default:
+			return c08Plain(26, 0, seq, [][]byte{{0}, {}, {0, 16, 1, 2}}[rng.Intn(3)])
+		}
 	case "plain-alert":
 		bodies := [][]byte{{1, 0}, {2, 40}, {2, 10}, {1, 90}, {2}, {}, {2, 0, 0}}
 
@@ -444,6 +461,9 @@ func runC08Case(idx int, cs *c08Case) (res c08Result) { //nolint:cyclop,gocognit
 		}
 		if res.Sample == "" {
 			res.Sample = fmt.Sprintf("%x", d[:min(len(d), 48)])
+		}
+		if os.Getenv("VERIF_DEBUG") != "" {
+			fmt.Printf("inject to %s: %x\n", target.name, d)
 		}
 		r.net.Inject(target.name, labAddr(sender.name), d)
 		res.Injected++
